@@ -31,7 +31,7 @@ fn raw_stream(g: &mut Gen, st: &mut Stats) -> CaseResult {
 fn subs() -> Vec<Sub> {
     let mut v = blocking::subs();
     v.push(Sub { prop: "C14", name: "raw-stream", rule: "random byte streams into a reader with max_len 16: never an allocation sized by the prefix (also the replay entry for abnormal exits)",
-                 kind: Kind::Random { quick: 20_000, thorough: 500_000, tape: 64, f: raw_stream } });
+                 kind: Kind::Random { quick: 100_000, thorough: 500_000, tape: 64, f: raw_stream } });
     v.extend(aread::subs());
     v.extend(awrite::subs());
     v
